@@ -45,11 +45,11 @@ def extract_data_3d(
         id_processor: int = row["id_processor"]
         data_tree: Delayed = row["data_tree"]
 
-        photon_delayed: Delayed = data_tree["photon"]  # type: ignore
-        charge_delayed: Delayed = data_tree["charge"]  # type: ignore
-        pixel_delayed: Delayed = data_tree["pixel"]  # type: ignore
-        signal_delayed: Delayed = data_tree["signal"]  # type: ignore
-        image_delayed: Delayed = data_tree["image"]  # type: ignore
+        photon_delayed: Delayed = data_tree["/bucket/photon"].to_numpy()  # type: ignore
+        charge_delayed: Delayed = data_tree["/bucket/charge"].to_numpy()  # type: ignore
+        pixel_delayed: Delayed = data_tree["/bucket/pixel"].to_numpy()  # type: ignore
+        signal_delayed: Delayed = data_tree["/bucket/signal"].to_numpy()  # type: ignore
+        image_delayed: Delayed = data_tree["/bucket/image"].to_numpy()  # type: ignore
 
         photon_3d = da.from_delayed(
             photon_delayed, shape=(times, rows, cols), dtype=float
